@@ -92,6 +92,9 @@ def judge(case, out, expects):
                                 f"(expected {want}), peer sent {theirs} (expected none)")
     if out.sched.escalations:
         raise Violation("close.escalation", f"{out.sched.escalations}")
+    late = inproc.late_wakeups(out.sched)
+    if late:
+        raise Violation("close.lost-wakeup", f"a blocked call was never woken, it only returned by its 60 s timeout: {late}")
 
 
 class Sched(Part):
